@@ -126,7 +126,8 @@ def runAppH : Handler := fun j => do
       match wj.getStr?, sj.getArr? with
       | .ok wn, .ok arr =>
         let flags := arr.toList.map (fun b => (b.getBool?.toOption.getD false))
-        let w := if wn = "trio" then Worker.trio else Worker.asyncio
+        let w := if wn = "trio" then Worker.trio else if wn = "asyncio_middleware" then Worker.asyncioMiddleware
+                 else if wn = "trio_middleware" then Worker.trioMiddleware else Worker.asyncio
         some (accepted w (fun i => flags.getD i (flags.getLast?.getD false)) o.sent)
       | _, _ => none
     | _, _ => none
